@@ -7,6 +7,11 @@ import (
 	"verif/harness/model"
 )
 
+// ExpectUntypedAdditional: whether the undeclared keys of an object with untyped
+// additionalProperties (true / {}) are expected in the additional-properties
+// field (off while the known finding about it is open).
+var ExpectUntypedAdditional bool
+
 // Exp is the expected decoded value of a document under a schema: what every
 // declared property must hold after decoding (input value, default when absent
 // or null, nil when absent and optional). It is model-free once built, so it
@@ -134,7 +139,7 @@ func expectObject(n *model.Node, v jv.V, depth int) *Exp {
 			out.Props[p.Name] = &Exp{K: "absent"}
 		}
 	}
-	if n.Additional != nil && !n.Additional.False && n.Additional.Schema != nil && n.Additional.Schema.Kind != model.KAny {
+	if n.Additional != nil && !n.Additional.False && n.Additional.Schema != nil && (n.Additional.Schema.Kind != model.KAny || ExpectUntypedAdditional) {
 		out.HasAddl = true
 		out.Addl = map[string]json.RawMessage{}
 		for _, kv := range v.O {
